@@ -14,7 +14,8 @@
    registers in cond.Wait) are two steps, and so are the batcher's done-signal and its Broadcast.
 
    The constants (channel capacity, batch sizes, whether the done branch drains, key source per
-   event type) come from gen/Gen_EventWriter.v, regenerated from the source on every run.
+   event type, and the shape of the producers' hand-over: one plain blocking channel send)
+   come from gen/Gen_EventWriter.v, regenerated from the source on every run.
    Definitions only; proofs are in proofs/EventWriter_proofs.v. *)
 From Verif Require Import Common Gen_EventWriter.
 Open Scope N_scope.
@@ -86,8 +87,18 @@ Definition waiting (w : wpc) : bool := match w with WWait _ => true | _ => false
 Definition pop_max (d : bool) : nat := N.to_nat (if d then ew_drain_batch_max else ew_batch_max).
 Definition after (d : bool) : wpc := if d then WLen else WSelect.
 
+(* The hand-over of WriteEventWithTimestamp as read from writer.go on this run: exactly one send
+   on toBatchMessagesChan, a plain statement (no select case, no go / defer, no loop, no stored
+   closure), no select and no go statement in WriteEvent / WriteEventWithTimestamp, and the value
+   sent is the message the conversion produced before the send. *)
+Definition pub_sync : bool :=
+  ew_pub_single_send && ew_pub_plain_send && ew_pub_no_select && ew_pub_no_go && ew_pub_convert_first.
+
 (* WriteEventWithTimestamp: conversion first (an unsupported value returns before the send), then
-   the channel send: panics on a closed channel, blocks (stutters) on a full one. *)
+   the channel send: panics on a closed channel, blocks (stutters) on a full one — provided the
+   hand-over is that plain blocking send.  With any other hand-over (a non-blocking send with a
+   fallback, a send from a spawned goroutine, ...) WriteEvent returns on a full channel although
+   the message is not inside the writer: it counts as accepted and is nowhere in the pipeline. *)
 Definition step_pub (p : N) (e : event) (s : st) : st :=
   let '(mkSt ch cl bf wk dn rl g b w c dl ac pn) := s in
   match key_of e with
@@ -96,7 +107,8 @@ Definition step_pub (p : N) (e : event) (s : st) : st :=
     if cl then mkSt ch cl bf wk dn rl g b w c dl ac true
     else if Nlen ch <? ew_chan_cap
          then let m := mkMsg p e k in mkSt (ch ++ [m]) cl bf wk dn rl g b w c dl (ac ++ [m]) pn
-         else s
+         else if pub_sync then s
+         else mkSt ch cl bf wk dn rl g b w c dl (ac ++ [mkMsg p e k]) pn
   end.
 
 Definition step_B (s : st) : st :=
@@ -230,7 +242,9 @@ Definition measure (s : st) : nat :=
 (* ---------- the coarse schedules the harness can force ---------- *)
 (* The harness holds the writer inside the write function (a gate), publishes, lets the batcher
    and the writer run until nothing moves, releases the gate, calls Close at a chosen moment.
-   [settle]: batcher first, then the writer unless it is inside the write function, then Close. *)
+   [settle]: batcher first, then the writer unless it is inside the write function, then Close.
+   It can also stall the batching loop (it takes the FifoBuffer mutex, so the loop stops at its
+   next Push) while producers publish, until the channel is full and the producers wait: [OFull]. *)
 Definition in_write (s : st) : bool := match wp s with WInWrite _ => true | _ => false end.
 
 Fixpoint settle (fuel : nat) (s : st) : list label :=
@@ -248,7 +262,65 @@ Inductive op :=
 | OPub (p : N) (e : event)          (* one WriteEvent, returned before the next operation *)
 | OBurst (l : list (N * event))     (* concurrent WriteEvents, listed in the order they were accepted *)
 | ORelease                          (* the write function returns *)
-| OClose.                           (* Close is called (in its own goroutine) *)
+| OClose                            (* Close is called (in its own goroutine) *)
+| OFull (l : list (N * event)).     (* the batching loop is stalled at its Push while these WriteEvents
+                                       are issued concurrently (listed in the order they were accepted);
+                                       when nothing moves any more the stall ends *)
+
+Definition pub_label (pe : N * event) : label := LPub (fst pe) (snd pe).
+Definition supported (e : event) : bool := match key_of e with Some _ => true | None => false end.
+
+(* While the batching loop is stalled it can still receive ONE message (BIdle -> BHold); then it
+   waits for the mutex inside Push.  A publication that finds the channel full waits — this is
+   the enabledness of Publish, [publish_enabled] — and so do all those accepted after it.
+   Result: the labels, the publications still waiting, and how many WriteEvent calls (of
+   supported events, on the open channel) have returned. *)
+Fixpoint stalled (l : list (N * event)) (s : st) : list label * list (N * event) * N :=
+  match l with
+  | [] => ([], [], 0)
+  | pe :: r =>
+    if supported (snd pe) && negb (closed s) && negb (publish_enabled s) then ([], l, 0)
+    else
+      let s1 := step (pub_label pe) s in
+      let tk := match bp s1 with
+                | BIdle => match chan s1 with _ :: _ => [LB] | [] => [] end
+                | _ => []
+                end in
+      match stalled r (run tk s1) with
+      | (ls, rest, n) =>
+        (pub_label pe :: tk ++ ls, rest,
+         n + (if supported (snd pe) && negb (closed s) then 1 else 0))
+      end
+  end.
+
+(* The stall is over: a waiting publication gets in as soon as the batching loop has made room,
+   which takes it at most two steps (Push, receive). *)
+Definition make_room (s : st) : list label :=
+  if publish_enabled s || closed s then []
+  else if publish_enabled (step LB s) then [LB] else [LB; LB].
+
+Fixpoint resumed (l : list (N * event)) (s : st) : list label :=
+  match l with
+  | [] => []
+  | pe :: r =>
+    let ls := (if supported (snd pe) then make_room s else []) ++ [pub_label pe] in
+    ls ++ resumed r (run ls s)
+  end.
+
+Definition full_labels (l : list (N * event)) (s : st) : list label :=
+  match stalled l s with
+  | (ls, rest, _) => ls ++ resumed rest (run ls s)
+  end.
+Definition stalled_returns (l : list (N * event)) (s : st) : N := snd (stalled l s).
+
+(* compact notation for long bursts: [n] consecutive publications of producer [p], tags t0, t0+1, ... *)
+Fixpoint run_of (k : N) (env task : str) (p t0 : N) (n : nat) : list (N * event) :=
+  match n with
+  | O => []
+  | S m => (p, mkEvent k t0 env task) :: run_of k env task p (N.succ t0) m
+  end.
+Definition expand_runs (k : N) (env task : str) (runs : list (N * N * N)) : list (N * event) :=
+  flat_map (fun r => match r with (p, t0, n) => run_of k env task p t0 (N.to_nat n) end) runs.
 
 Definition op_labels (o : op) (s : st) : list label :=
   match o with
@@ -256,6 +328,7 @@ Definition op_labels (o : op) (s : st) : list label :=
   | OBurst l => map (fun pe => LPub (fst pe) (snd pe)) l
   | ORelease => if in_write s then [LW] else []
   | OClose => match cp s with CNot => [LC; LC] | _ => [] end
+  | OFull l => full_labels l s
   end.
 
 Definition coarse_labels (o : op) (s : st) : list label :=
@@ -277,12 +350,15 @@ Definition omsg := (N * N * N * option str)%type.
 Definition omsg_of (m : msg) : omsg := (m_prod m, e_tag (m_ev m), e_kind (m_ev m), m_key m).
 (* per operation: result code; batches that reached the write function (as decoded when the write
    function was entered); Close returned; batches whose write function returned during this
-   operation (the very same slice decoded again at return: what the broker really saw) *)
-Definition opobs := (N * list (list omsg) * bool * list (list omsg))%type.
-Definition o_res (o : opobs) : N := fst (fst (fst o)).
-Definition o_batches (o : opobs) : list (list omsg) := snd (fst (fst o)).
-Definition o_closed (o : opobs) : bool := snd (fst o).
-Definition o_left (o : opobs) : list (list omsg) := snd o.
+   operation (the very same slice decoded again at return: what the broker really saw); for an
+   OFull operation: (number of WriteEvent calls that had returned when nothing moved any more
+   with the batching loop stalled, capacity of the channel); (0, 0) for the other operations *)
+Definition opobs := (N * list (list omsg) * bool * list (list omsg) * (N * N))%type.
+Definition o_res (o : opobs) : N := fst (fst (fst (fst o))).
+Definition o_batches (o : opobs) : list (list omsg) := snd (fst (fst (fst o))).
+Definition o_closed (o : opobs) : bool := snd (fst (fst o)).
+Definition o_left (o : opobs) : list (list omsg) := snd (fst o).
+Definition o_stall (o : opobs) : N * N := snd o.
 
 Definition is_returned (s : st) : bool := match cp s with CReturned => true | _ => false end.
 
@@ -300,6 +376,7 @@ Definition op_res (o : op) (s : st) : N :=
     then 2 else 0
   | ORelease => if in_write s then 0 else 1
   | OClose => match cp s with CNot => 0 | _ => 1 end
+  | OFull l => if closed s && existsb (fun pe => supported (snd pe)) l then 2 else 0
   end.
 
 Definition obs_of (o : op) (s s' : st) : opobs :=
@@ -309,12 +386,17 @@ Definition obs_of (o : op) (s s' : st) : opobs :=
    match o with
    | ORelease => if in_write s then [map omsg_of (last (delivered s) [])] else []
    | _ => []
+   end,
+   match o with
+   | OFull l => (stalled_returns l s, ew_chan_cap)
+   | _ => (0, 0)
    end).
 
 Fixpoint coarse_obs (ops : list op) (s : st) : list opobs :=
   match ops with
   | [] => []
-  | o :: r => let s' := run (coarse_labels o s) s in obs_of o s s' :: coarse_obs r s'
+  | o :: r => let s' := run (coarse_labels o s) s in
+              let ob := obs_of o s s' in ob :: coarse_obs r s'
   end.
 
 Definition run_model (ops : list op) : list opobs := coarse_obs ops init_settled.
@@ -327,9 +409,9 @@ Definition omsg_eqb (a b : omsg) : bool :=
   end.
 Definition opobs_eqb (a b : opobs) : bool :=
   match a, b with
-  | (r, bs, c, l), (r', bs', c', l') =>
+  | (r, bs, c, l, (n, k)), (r', bs', c', l', (n', k')) =>
     (r =? r') && list_eqb (list_eqb omsg_eqb) bs bs' && Bool.eqb c c' &&
-    list_eqb (list_eqb omsg_eqb) l l'
+    list_eqb (list_eqb omsg_eqb) l l' && (n =? n') && (k =? k')
   end.
 
 (* ---------- cases written by the harness ---------- *)
@@ -352,7 +434,7 @@ Definition corr19 (c : c19_case) : bool :=
 
 (* ---------- the property evaluated on what the implementation did ---------- *)
 Definition pubs_of (o : op) : list (N * event) :=
-  match o with OPub p e => [(p, e)] | OBurst l => l | _ => [] end.
+  match o with OPub p e => [(p, e)] | OBurst l => l | OFull l => l | _ => [] end.
 Definition is_close (o : op) : bool := match o with OClose => true | _ => false end.
 
 Fixpoint before_close (ops : list op) : list op :=
@@ -392,7 +474,12 @@ Fixpoint increasing_from (p : N) (last : option N) (l : list omsg) : bool :=
       end
     else increasing_from p last r
   end.
-Definition producers_of (l : list omsg) : list N := map (fun m => fst (fst (fst m))) l.
+Fixpoint distinctN (l seen : list N) : list N :=
+  match l with
+  | [] => seen
+  | x :: r => if memN x seen then distinctN r seen else distinctN r (x :: seen)
+  end.
+Definition producers_of (l : list omsg) : list N := distinctN (map (fun m => fst (fst (fst m))) l) [].
 Definition order_ok (l : list omsg) : bool :=
   forallb (fun p => increasing_from p None l) (producers_of l).
 
@@ -419,24 +506,67 @@ Definition delivered_keys (flat : list omsg) (pubs : list (N * event)) : list (e
                       | None => []
                       end) pubs.
 
+(* Linear-time shortcuts for long schedules (a full channel is 10000 messages).  Each implies the
+   quadratic check it stands in front of, so the monitor decides exactly what it decided before:
+   - [lockstep flat pubs]: flat is, in order, a subsequence of pubs (every message matched with a
+     publication of its own) => every message was published;
+   - [order_ok flat] (tags of each producer strictly increase) => no identity occurs twice;
+   - [early_ok]: a publication that matches the next message in line has reached the broker;
+   - [keys_walk]: same, for the key it carried (the first match is the only one once code 1 is excluded). *)
+Fixpoint lockstep (flat : list omsg) (pubs : list (N * event)) {struct flat} : bool :=
+  match flat with
+  | [] => true
+  | m :: fr =>
+    (fix skip (ps : list (N * event)) : bool :=
+       match ps with
+       | [] => false
+       | pe :: pr => if same_pub m pe then lockstep fr pr else skip pr
+       end) pubs
+  end.
+
+Fixpoint early_ok (early : list (N * event)) (cur all : list omsg) : bool :=
+  match early with
+  | [] => true
+  | pe :: r =>
+    if negb (is_event_kind (e_kind (snd pe))) then early_ok r cur all
+    else match cur with
+         | m :: cr => if same_pub m pe then early_ok r cr all
+                      else existsb (fun m => same_pub m pe) all && early_ok r cur all
+         | [] => existsb (fun m => same_pub m pe) all && early_ok r cur all
+         end
+  end.
+
+Definition key_slow (all : list omsg) (pe : N * event) : list (event * option str) :=
+  match key_of_delivered all pe with Some k => [(snd pe, k)] | None => [] end.
+
+Fixpoint keys_walk (pubs : list (N * event)) (cur all : list omsg) : list (event * option str) :=
+  match pubs with
+  | [] => []
+  | pe :: r =>
+    match cur with
+    | m :: cr => if same_pub m pe then (snd pe, snd m) :: keys_walk r cr all
+                 else key_slow all pe ++ keys_walk r cur all
+    | [] => key_slow all pe ++ keys_walk r cur all
+    end
+  end.
+
 Definition mon_sched (ops : list op) (obs : list opobs) : N :=
   let batches := seen_batches obs in
   let flat := concat batches in
   let pubs := flat_map pubs_of ops in
   let early := flat_map pubs_of (before_close ops) in
-  let dkeys := delivered_keys flat pubs in
+  let dkeys := keys_walk pubs flat flat in
   let scoped := filter (fun a => env_scoped_kind (e_kind (fst a))) dkeys in
   (* 9: a batch changed while the write function was working on it (its content at return differs
         from its content at entry) *)
   if negb (list_eqb (list_eqb omsg_eqb)
                     (firstn (length (all_left obs)) (all_batches obs)) (all_left obs)) then 9
   (* 4: shutdown completed, but an event accepted before Close was called never reached the broker *)
-  else if close_returned obs &&
-          negb (forallb (fun pe => negb (is_event_kind (e_kind (snd pe))) ||
-                                   existsb (fun m => same_pub m pe) flat) early) then 4
+  else if close_returned obs && negb (early_ok early flat flat) then 4
   (* 1: something reached the broker twice, or was never published, or is not what was published *)
-  else if negb (no_dup_ids flat) ||
-          negb (forallb (fun m => existsb (same_pub m) pubs) flat) then 1
+  else if negb (if order_ok flat then true else no_dup_ids flat) ||
+          negb (if lockstep flat pubs then true
+                else forallb (fun m => existsb (same_pub m) pubs) flat) then 1
   (* 2: a producer's events reached the broker in another order than it published them *)
   else if negb (order_ok flat) then 2
   (* 3: batch size outside 1..100 *)
@@ -447,6 +577,10 @@ Definition mon_sched (ops : list op) (obs : list opobs) : N :=
             scoped) scoped) then 5
   (* 6: a key is not the documented one *)
   else if negb (forallb (fun a => option_eqb str_eqb (snd a) (documented_key (fst a))) dkeys) then 6
+  (* 11: with the batching loop stalled, more WriteEvent calls returned than the channel has room
+         for (its capacity, plus the one message the stalled loop holds): an event was accepted
+         without being inside the writer *)
+  else if existsb (fun o => snd (o_stall o) + 1 <? fst (o_stall o)) obs then 11
   (* 7: a producer was kept waiting while the broker did not answer *)
   else if existsb (fun o => o_res o =? 3) obs then 7
   (* 8: an operation did not settle although the model says it does (result code 9) *)
@@ -471,7 +605,10 @@ Definition tag19 (c : c19_case) : N :=
   match c with
   | CRace mode _ _ _ => 20 + mode
   | CSched ops obs =>
-    let full := if existsb (fun b => Nlen b =? 100) (all_batches obs) then 10 else 0 in
+    let full := (if existsb (fun b => Nlen b =? 100) (all_batches obs) then 10 else 0) +
+                (* the channel was full and producers waited for the batching loop *)
+                (if existsb (fun o => (0 <? snd (o_stall o)) && (snd (o_stall o) <? fst (o_stall o))) obs
+                 then 30 else 0) in
     match state_at_close ops init_settled with
     | None => 0
     | Some s =>
